@@ -231,16 +231,43 @@ def nt_game(case):
     return f"{case['family']}:r={r}:" + ",".join(labels)
 
 
+_LIVE_GAMES = []  # (game, copy of prob_mat, copy of pred_mat) of the case being checked
+
+
 def _game(case):
     from toqito.nonlocal_games.extended_nonlocal_game import ExtendedNonlocalGame
 
     prob, pred = H.build_game(case)
-    return prob, pred, ExtendedNonlocalGame(prob, pred)
+    game = ExtendedNonlocalGame(prob, pred)
+    _LIVE_GAMES.append((game, np.array(game.prob_mat, copy=True), np.array(game.pred_mat, copy=True), prob, np.array(prob, copy=True), pred, np.array(pred, copy=True)))
+    return prob, pred, game
+
+
+def _games_unchanged(check):
+    """after the check: every game object built for the case still holds the tensors it was built with, and the arrays
+    handed to the constructor are unchanged (a value method that rescales or reorders them in place makes every later
+    value wrong; seen in seeded changes against the NonlocalGame and QuantumHedging classes)"""
+    import functools
+
+    @functools.wraps(check)
+    def wrapped(case):
+        del _LIVE_GAMES[:]
+        try:
+            check(case)
+            for game, p0, v0, prob, prob0, pred, pred0 in _LIVE_GAMES:
+                same = np.array_equal(np.asarray(game.prob_mat), p0) and np.array_equal(np.asarray(game.pred_mat), v0)
+                req(same, "a value method changed prob_mat / pred_mat stored on the ExtendedNonlocalGame object", "game_object_mutated")
+                req(np.array_equal(prob, prob0) and np.array_equal(pred, pred0), "the arrays passed to ExtendedNonlocalGame were modified", "game_inputs_mutated")
+        finally:
+            del _LIVE_GAMES[:]
+
+    return wrapped
 
 
 # ------------------------------------------------------------------------------------------
 # 1. unentangled value = brute force over answer-function pairs
 # ------------------------------------------------------------------------------------------
+@_games_unchanged
 def check_unentangled(case):
     prob, pred, game = _game(case)
     val, const = _brute(case, prob, pred)
@@ -311,6 +338,7 @@ def nt_reps2(case):
 # ------------------------------------------------------------------------------------------
 # 3. non-signalling value
 # ------------------------------------------------------------------------------------------
+@_games_unchanged
 def check_ns(case):
     prob, pred, game = _game(case)
     got = _f(lambda: game.nonsignaling_value(), "ns")
@@ -345,6 +373,7 @@ def _npa_levels(case):
     return lev
 
 
+@_games_unchanged
 def check_npa_sound(case):
     prob, pred, game = _game(case)
     val, _ = _brute(case, prob, pred)
@@ -432,6 +461,7 @@ def _with_rseed(strategy):
     return st.tuples(strategy, st.integers(0, 2**31 - 1)).map(lambda t: {**t[0], "rseed": t[1]})
 
 
+@_games_unchanged
 def check_seesaw(case):
     prob, pred, game = _game(case)
     got = _qlb(game, case)
@@ -440,6 +470,7 @@ def check_seesaw(case):
     req(got >= -TOL, f"quantum_value_lower_bound = {got:.6f} is negative", "qlb<0")
 
 
+@_games_unchanged
 def check_seesaw_le_npa(case):
     prob, pred, game = _game(case)
     got = _qlb(game, case)
